@@ -13,6 +13,7 @@ import (
 	"math/rand"
 	"os"
 	"reflect"
+	"runtime/debug"
 	"sort"
 	"strings"
 	"time"
@@ -266,6 +267,21 @@ type Replay struct {
 	Extra     map[string]string `json:"extra,omitempty"`
 }
 
+// shortStack keeps the frames of the library under test and of the adapter.
+func shortStack() string {
+	lines := strings.Split(string(debug.Stack()), "\n")
+	var keep []string
+	for i := 0; i+1 < len(lines); i++ {
+		if strings.Contains(lines[i], "golib") || strings.Contains(lines[i], "main.") || strings.Contains(lines[i+1], "golib") {
+			keep = append(keep, strings.TrimSpace(lines[i])+" @ "+strings.TrimSpace(lines[i+1]))
+		}
+		if len(keep) >= 8 {
+			break
+		}
+	}
+	return strings.Join(keep, " | ")
+}
+
 func rawArgs(a []json.RawMessage) []interface{} {
 	out := make([]interface{}, len(a))
 	for i, x := range a {
@@ -280,8 +296,14 @@ func RunPath(ad Adapter, init State, ops []Op, expect []State, drain bool) (trac
 	trace = append(trace, Event{"ev": "Reset", "s": Canon(init.S)})
 	defer func() {
 		if r := recover(); r != nil {
-			trace = append(trace, Event{"ev": "Panic", "msg": fmt.Sprint(r)})
-			mm = &mismatch{Kind: "panic", Step: len(trace) - 1, Expected: "no panic", Actual: fmt.Sprint(r)}
+			st := lastStack + " || " + shortStack()
+			inlib := strings.Contains(strings.ReplaceAll(st, "golib/verifshim", ""), "welllog/golib")
+			trace = append(trace, Event{"ev": "Panic", "msg": fmt.Sprint(r), "stack": st, "inlib": inlib})
+			kind := "panic"
+			if !inlib {
+				kind = "harness-panic" // no frame of the library on the stack: a defect of the harness, not a verdict
+			}
+			mm = &mismatch{Kind: kind, Step: len(trace) - 1, Expected: "no panic", Actual: fmt.Sprint(r) + " @ " + st}
 		}
 	}()
 	if err := ad.Reset(init.S); err != nil {
@@ -341,6 +363,8 @@ var HangTimeout = 20 * time.Second
 // Hung is set once a call has been abandoned (its goroutine may still be spinning).
 var Hung bool
 
+var lastStack string
+
 type applyRes struct {
 	ret interface{}
 	err error
@@ -352,6 +376,7 @@ func applyWatched(ad Adapter, op Op) (interface{}, error, bool) {
 	go func() {
 		defer func() {
 			if r := recover(); r != nil {
+				lastStack = shortStack()
 				ch <- applyRes{pan: r}
 			}
 		}()
